@@ -563,3 +563,286 @@ Qed.
 (** The filter models are exercised by inputs on which the filter fires. *)
 Example simple_filter_fires : simple_filter_go 100 104 120 118 63 = (108, 116) /\ simple_filter_lane 100 104 120 118 63 = (108, 116).
 Proof. split; vm_compute; reflexivity. Qed.
+
+(** * Forward DCT: 32-bit lanes never wrap and no pack saturates on byte input. *)
+Lemma wrap32_id x : -2147483648 <= x <= 2147483647 -> wrap32 x = x.
+Proof. unfold wrap32. lia. Qed.
+
+Lemma sat16_id x : int16 x -> sat16 x = x.
+Proof. unfold sat16, clampz, int16. intros H. destruct (x <? -32768) eqn:E1; [lia|]. destruct (32767 <? x) eqn:E2; lia. Qed.
+
+Lemma l_frow_spec d0 d1 d2 d3 :
+  in_box 255 d0 -> in_box 255 d1 -> in_box 255 d2 -> in_box 255 d3 ->
+  l_frow (d0, d1, d2, d3) = frow (d0, d1, d2, d3) /\ forallQ (in_box 8160) (frow (d0, d1, d2, d3)).
+Proof.
+  unfold in_box. intros H0 H1 H2 H3. unfold l_frow, frow, pmadd, sra32. cbv zeta.
+  change (2 ^ 9) with 512.
+  rewrite (wrap32_id (d0 + d3)), (wrap32_id (d1 + d2)), (wrap32_id (d1 - d2)), (wrap32_id (d0 - d3)) by lia.
+  rewrite (sat16_id (d1 - d2)), (sat16_id (d0 - d3)) by (unfold int16; lia).
+  rewrite (wrap32_id (d0 + d3 + (d1 + d2))), (wrap32_id (d0 + d3 - (d1 + d2))) by lia.
+  rewrite (wrap32_id ((d0 + d3 + (d1 + d2)) * 8)), (wrap32_id ((d0 + d3 - (d1 + d2)) * 8)) by lia.
+  rewrite (wrap32_id ((d1 - d2) * 2217 + (d0 - d3) * 5352)), (wrap32_id ((d0 - d3) * 2217 + (d1 - d2) * -5352)) by lia.
+  rewrite (wrap32_id ((d1 - d2) * 2217 + (d0 - d3) * 5352 + 1812)), (wrap32_id ((d0 - d3) * 2217 + (d1 - d2) * -5352 + 937)) by lia.
+  replace ((d0 - d3) * 2217 + (d1 - d2) * -5352 + 937) with ((d0 - d3) * 2217 - (d1 - d2) * 5352 + 937) by lia.
+  split; [reflexivity|]. cbn [forallQ]. unfold in_box. repeat split; lia.
+Qed.
+
+Lemma l_fcol_spec t0 t1 t2 t3 :
+  in_box 8160 t0 -> in_box 8160 t1 -> in_box 8160 t2 -> in_box 8160 t3 ->
+  l_fcol (t0, t1, t2, t3) = fcol (t0, t1, t2, t3) /\ forallQ (in_box 2040) (fcol (t0, t1, t2, t3)).
+Proof.
+  unfold in_box. intros H0 H1 H2 H3. unfold l_fcol, fcol, pmadd, sra32. cbv zeta.
+  change (2 ^ 4) with 16. change (2 ^ 16) with 65536.
+  rewrite (wrap32_id (t0 + t3)), (wrap32_id (t1 + t2)), (wrap32_id (t1 - t2)), (wrap32_id (t0 - t3)) by lia.
+  rewrite (sat16_id (t1 - t2)), (sat16_id (t0 - t3)) by (unfold int16; lia).
+  rewrite (wrap32_id (t0 + t3 + (t1 + t2))), (wrap32_id (t0 + t3 - (t1 + t2))) by lia.
+  rewrite (wrap32_id (t0 + t3 + (t1 + t2) + 7)), (wrap32_id (t0 + t3 - (t1 + t2) + 7)) by lia.
+  rewrite (wrap32_id ((t1 - t2) * 2217 + (t0 - t3) * 5352)), (wrap32_id ((t0 - t3) * 2217 + (t1 - t2) * -5352)) by lia.
+  rewrite (wrap32_id ((t1 - t2) * 2217 + (t0 - t3) * 5352 + 12000)), (wrap32_id ((t0 - t3) * 2217 + (t1 - t2) * -5352 + 51000)) by lia.
+  replace ((t0 - t3) * 2217 + (t1 - t2) * -5352 + 51000) with ((t0 - t3) * 2217 - (t1 - t2) * 5352 + 51000) by lia.
+  set (o0 := (t0 + t3 + (t1 + t2) + 7) / 16).
+  set (o2 := (t0 + t3 - (t1 + t2) + 7) / 16).
+  set (e := if t0 - t3 =? 0 then 0 else 1).
+  assert (He : 0 <= e <= 1) by (subst e; destruct (t0 - t3 =? 0); lia).
+  set (o1 := ((t1 - t2) * 2217 + (t0 - t3) * 5352 + 12000) / 65536).
+  set (o3 := ((t0 - t3) * 2217 - (t1 - t2) * 5352 + 51000) / 65536).
+  assert (B0 : -2040 <= o0 <= 2040) by (subst o0; lia).
+  assert (B2 : -2040 <= o2 <= 2040) by (subst o2; lia).
+  assert (B1 : -2039 <= o1 <= 2039) by (subst o1; lia).
+  assert (B3 : -2040 <= o3 <= 2040) by (subst o3; lia).
+  rewrite (wrap32_id (o1 + e)) by lia.
+  rewrite (sat16_id o0), (sat16_id (o1 + e)), (sat16_id o2), (sat16_id o3) by (unfold int16; lia).
+  rewrite (wrap16_id o0), (wrap16_id (o1 + e)), (wrap16_id o2), (wrap16_id o3) by (unfold int16; lia).
+  split; [reflexivity|]. cbn [forallQ]. unfold in_box. repeat split; lia.
+Qed.
+
+Lemma l_fdct_core_eq d : forallM (in_box 255) d ->
+  l_fdct_core d = fdct_core d /\ forallM (in_box 2040) (fdct_core d).
+Proof.
+  destruct d as [[[[[[a0 a1] a2] a3] [[[b0 b1] b2] b3]] [[[c0 c1] c2] c3]] [[[d0 d1] d2] d3]].
+  cbn [forallM forallQ].
+  intros ((A0 & A1 & A2 & A3) & (B0 & B1 & B2 & B3) & (C0 & C1 & C2 & C3) & (D0 & D1 & D2 & D3)).
+  unfold l_fdct_core, fdct_core. cbn [mapM].
+  destruct (l_frow_spec _ _ _ _ A0 A1 A2 A3) as [-> Ka].
+  destruct (l_frow_spec _ _ _ _ B0 B1 B2 B3) as [-> Kb].
+  destruct (l_frow_spec _ _ _ _ C0 C1 C2 C3) as [-> Kc].
+  destruct (l_frow_spec _ _ _ _ D0 D1 D2 D3) as [-> Kd].
+  destruct (frow (a0, a1, a2, a3)) as [[[u0 u1] u2] u3].
+  destruct (frow (b0, b1, b2, b3)) as [[[v0 v1] v2] v3].
+  destruct (frow (c0, c1, c2, c3)) as [[[w0 w1] w2] w3].
+  destruct (frow (d0, d1, d2, d3)) as [[[z0 z1] z2] z3].
+  cbn [forallQ transpose mapM] in *.
+  destruct Ka as (? & ? & ? & ?), Kb as (? & ? & ? & ?), Kc as (? & ? & ? & ?), Kd as (? & ? & ? & ?).
+  destruct (l_fcol_spec u0 v0 w0 z0) as [-> L0]; try assumption.
+  destruct (l_fcol_spec u1 v1 w1 z1) as [-> L1]; try assumption.
+  destruct (l_fcol_spec u2 v2 w2 z2) as [-> L2]; try assumption.
+  destruct (l_fcol_spec u3 v3 w3 z3) as [-> L3]; try assumption.
+  split; [reflexivity|].
+  destruct (fcol (u0, v0, w0, z0)) as [[[p0 p1] p2] p3].
+  destruct (fcol (u1, v1, w1, z1)) as [[[q0 q1] q2] q3].
+  destruct (fcol (u2, v2, w2, z2)) as [[[r0 r1] r2] r3].
+  destruct (fcol (u3, v3, w3, z3)) as [[[s0 s1] s2] s3].
+  cbn [forallQ forallM transpose] in *. tauto.
+Qed.
+
+Lemma diff_box s r : forallM byte s -> forallM byte r ->
+  map2M sub16 s r = map2M Z.sub s r /\ forallM (in_box 255) (map2M Z.sub s r).
+Proof.
+  destruct s as [[[[[[a0 a1] a2] a3] [[[b0 b1] b2] b3]] [[[c0 c1] c2] c3]] [[[d0 d1] d2] d3]].
+  destruct r as [[[[[[e0 e1] e2] e3] [[[f0 f1] f2] f3]] [[[g0 g1] g2] g3]] [[[h0 h1] h2] h3]].
+  cbn [forallM forallQ map2M map2Q]. unfold byte, in_box, sub16.
+  intros ((A0 & A1 & A2 & A3) & (B0 & B1 & B2 & B3) & (C0 & C1 & C2 & C3) & (D0 & D1 & D2 & D3)).
+  intros ((E0 & E1 & E2 & E3) & (F0 & F1 & F2 & F3) & (G0 & G1 & G2 & G3) & (H0 & H1 & H2 & H3)).
+  rewrite !wrap16_id by (unfold int16; lia). split; [reflexivity|]. repeat split; lia.
+Qed.
+
+(** [lane32_fdct_eq]: on all byte inputs. *)
+Theorem lane32_fdct_eq : forall src ref, Forall byte src -> Forall byte ref ->
+  lane32_fdct src ref = ftransform src ref.
+Proof.
+  intros src ref Hs Hr. unfold lane32_fdct, ftransform.
+  destruct (blk16_cases src) as [[s Es]|Es]; rewrite Es; [|reflexivity].
+  destruct (blk16_cases ref) as [[r Er]|Er]; rewrite Er; [|reflexivity]. cbn [bind]. do 2 f_equal.
+  destruct (diff_box s r (blk16_Forall _ _ _ Es Hs) (blk16_Forall _ _ _ Er Hr)) as [-> Hd].
+  apply l_fdct_core_eq, Hd.
+Qed.
+
+(** Every forward-DCT coefficient of byte blocks is within +-2040 ... *)
+Theorem ftransform_bound : forall src ref s r, blk16 src = Ok s -> blk16 ref = Ok r ->
+  Forall byte src -> Forall byte ref ->
+  forallM (in_box 2040) (fdct_core (map2M Z.sub s r)).
+Proof.
+  intros src ref s r Es Er Hs Hr.
+  destruct (diff_box s r (blk16_Forall _ _ _ Es Hs) (blk16_Forall _ _ _ Er Hr)) as [_ Hd].
+  apply l_fdct_core_eq, Hd.
+Qed.
+
+(** ... hence the forward WHT, whose input in the encoder is the DC of sixteen
+    forward DCTs, never leaves its no-wrap range on encoder-reachable input. *)
+Theorem lane16_fwht_eq_on_encoder_input : forall dcs,
+  Forall (fun dc => exists src ref s r, blk16 src = Ok s /\ blk16 ref = Ok r /\ Forall byte src /\ Forall byte ref /\
+                    dc = nth 0 (listM (fdct_core (map2M Z.sub s r))) 0) dcs ->
+  lane16_fwht dcs = ftransform_wht dcs.
+Proof.
+  intros dcs H. apply lane16_fwht_eq. unfold in_range_fwht, kFwhtBox.
+  eapply Forall_impl; [|exact H]. cbn beta.
+  intros dc (src & ref & s & r & Es & Er & Hs & Hr & ->).
+  pose proof (ftransform_bound src ref s r Es Er Hs Hr) as B.
+  destruct (fdct_core (map2M Z.sub s r)) as [[[[[[p0 p1] p2] p3] q] r'] z].
+  cbn [forallM forallQ listM listQ app nth] in *. unfold in_box in B. lia.
+Qed.
+
+Example ftransform_example :
+  ftransform (repeat 255 16) (repeat 0 16) = Ok [2040; 1; 0; 0; 0; 0; 0; 0; 0; 0; 0; 0; 0; 0; 0; 0] /\
+  lane32_fdct [255; 0; 255; 0; 0; 255; 0; 255; 255; 0; 255; 0; 0; 255; 0; 255] (repeat 128 16)
+  = ftransform [255; 0; 255; 0; 0; 255; 0; 255; 255; 0; 255; 0; 0; 255; 0; 255] (repeat 128 16).
+Proof. split; vm_compute; reflexivity. Qed.
+
+(** * YUV -> RGB: equal for all byte triples. *)
+Lemma pack_clip_yuv x : -100000 <= x <= 100000 -> pack_u8 (x / 64) = clip_yuv x.
+Proof.
+  intros H. unfold pack_u8, clip_yuv, sat16, clampz, clip8.
+  destruct (x / 64 <? -32768) eqn:E1; [lia|]. destruct (32767 <? x / 64) eqn:E2; [lia|].
+  destruct (x <? 0) eqn:E3.
+  - destruct (x / 64 <? 0) eqn:E4; lia.
+  - destruct (16383 <? x) eqn:E5.
+    + destruct (x / 64 <? 0) eqn:E4; [lia|]. destruct (255 <? x / 64) eqn:E6; lia.
+    + reflexivity.
+Qed.
+
+Theorem lane32_yuv_eq : forall y u v, byte y -> byte u -> byte v ->
+  l_yuv_r y v = yuv_r y v /\ l_yuv_g y u v = yuv_g y u v /\ l_yuv_b y u = yuv_b y u.
+Proof.
+  unfold byte. intros y u v Hy Hu Hv.
+  unfold l_yuv_r, l_yuv_g, l_yuv_b, yuv_r, yuv_g, yuv_b, pmadd, sra32.
+  change (2 ^ 8) with 256. change (2 ^ 7) with 128. change (2 ^ 6) with 64.
+  rewrite !Z.mul_0_l, !Z.add_0_r.
+  rewrite (wrap32_id (y * 19077)), (wrap32_id (v * 26149)), (wrap32_id (u * 6419)),
+          (wrap32_id (v * 13320)), (wrap32_id (u * 16525)) by lia.
+  replace (u * 16525 / 128) with (u * 33050 / 256) by lia.
+  set (ys := y * 19077 / 256). set (rv := v * 26149 / 256). set (gu := u * 6419 / 256).
+  set (gv := v * 13320 / 256). set (bu := u * 33050 / 256).
+  assert (0 <= ys <= 19003) by (subst ys; lia). assert (0 <= rv <= 26047) by (subst rv; lia).
+  assert (0 <= gu <= 6394) by (subst gu; lia). assert (0 <= gv <= 13268) by (subst gv; lia).
+  assert (0 <= bu <= 32921) by (subst bu; lia).
+  rewrite (wrap32_id (ys + rv)), (wrap32_id (ys + rv - 14234)) by lia.
+  rewrite (wrap32_id (ys - gu)), (wrap32_id (ys - gu - gv)), (wrap32_id (ys - gu - gv + 8708)) by lia.
+  rewrite (wrap32_id (ys + bu)), (wrap32_id (ys + bu - 17685)) by lia.
+  repeat split; apply pack_clip_yuv; lia.
+Qed.
+
+Example yuv_example : yuv_r 235 240 = 255 /\ yuv_g 16 128 128 = 0 /\ yuv_b 128 50 = 0 /\ yuv_g 180 100 90 = 233.
+Proof. repeat split; vm_compute; reflexivity. Qed.
+
+(** * Hadamard distortion: byte blocks keep every lane within +-4080. *)
+Lemma l_hadamard_eq m : forallM byte m -> l_hadamard m = hadamard m /\ forallM (in_box 4080) (hadamard m).
+Proof.
+  intros Hm. unfold l_hadamard, hadamard.
+  assert (Hi : forallM int16 m) by (apply (forallM_impl byte int16); [unfold byte, int16; intros; lia|exact Hm]).
+  rewrite (mapM_ext_rows l_fwht_b (fun q => mapQ wrap16 (fwht_b q)) int16 m (lin_int16 _ _ l_fwht_b_lin) Hi).
+  destruct m as [[[[[[a0 a1] a2] a3] [[[b0 b1] b2] b3]] [[[c0 c1] c2] c3]] [[[d0 d1] d2] d3]].
+  cbn [forallM forallQ] in Hm. unfold byte in Hm.
+  destruct Hm as ((A0 & A1 & A2 & A3) & (B0 & B1 & B2 & B3) & (C0 & C1 & C2 & C3) & (D0 & D1 & D2 & D3)).
+  cbn [mapM].
+  assert (K : forall x0 x1 x2 x3, 0 <= x0 <= 255 -> 0 <= x1 <= 255 -> 0 <= x2 <= 255 -> 0 <= x3 <= 255 ->
+     mapQ wrap16 (fwht_b (x0, x1, x2, x3)) = fwht_b (x0, x1, x2, x3) /\ forallQ (in_box 1020) (fwht_b (x0, x1, x2, x3))).
+  { intros. unfold fwht_b, mapQ, forallQ, in_box. cbv zeta. rewrite !wrap16_id by (unfold int16; lia). split; [reflexivity|lia]. }
+  destruct (K _ _ _ _ A0 A1 A2 A3) as [-> Ka], (K _ _ _ _ B0 B1 B2 B3) as [-> Kb],
+           (K _ _ _ _ C0 C1 C2 C3) as [-> Kc], (K _ _ _ _ D0 D1 D2 D3) as [-> Kd].
+  destruct (fwht_b (a0, a1, a2, a3)) as [[[u0 u1] u2] u3].
+  destruct (fwht_b (b0, b1, b2, b3)) as [[[v0 v1] v2] v3].
+  destruct (fwht_b (c0, c1, c2, c3)) as [[[w0 w1] w2] w3].
+  destruct (fwht_b (d0, d1, d2, d3)) as [[[z0 z1] z2] z3].
+  cbn [forallQ transpose mapM] in *. unfold in_box in *.
+  assert (L : forall x0 x1 x2 x3, -1020 <= x0 <= 1020 -> -1020 <= x1 <= 1020 -> -1020 <= x2 <= 1020 -> -1020 <= x3 <= 1020 ->
+     l_fwht_b (x0, x1, x2, x3) = fwht_b (x0, x1, x2, x3) /\ forallQ (in_box 4080) (fwht_b (x0, x1, x2, x3))).
+  { intros. rewrite (lin_int16 _ _ l_fwht_b_lin) by (cbn [forallQ]; unfold int16; lia).
+    unfold fwht_b, mapQ, forallQ, in_box. cbv zeta. rewrite !wrap16_id by (unfold int16; lia). split; [reflexivity|lia]. }
+  destruct Ka as (? & ? & ? & ?), Kb as (? & ? & ? & ?), Kc as (? & ? & ? & ?), Kd as (? & ? & ? & ?).
+  destruct (L u0 v0 w0 z0) as [-> L0]; try assumption.
+  destruct (L u1 v1 w1 z1) as [-> L1]; try assumption.
+  destruct (L u2 v2 w2 z2) as [-> L2]; try assumption.
+  destruct (L u3 v3 w3 z3) as [-> L3]; try assumption.
+  split; [reflexivity|].
+  destruct (fwht_b (u0, v0, w0, z0)) as [[[p0 p1] p2] p3].
+  destruct (fwht_b (u1, v1, w1, z1)) as [[[q0 q1] q2] q3].
+  destruct (fwht_b (u2, v2, w2, z2)) as [[[r0 r1] r2] r3].
+  destruct (fwht_b (u3, v3, w3, z3)) as [[[s0 s1] s2] s3].
+  cbn [forallQ forallM transpose] in *. unfold in_box in *. tauto.
+Qed.
+
+Lemma l_wsum_eq w h : Forall (fun x => 0 <= x <= 255) w -> Forall (in_box 4080) h -> (length h <= 64)%nat ->
+  l_wsum w h = wsum w h /\ 0 <= wsum w h <= 1040400 * Z.of_nat (length h).
+Proof.
+  unfold l_wsum, wsum. intros Hw. revert h. induction Hw as [|x w Hx Hw IH]; intros h Hh HL; [cbn [combine map fold_right]; lia|].
+  destruct Hh as [|y h Hy Hh]; [cbn [combine map fold_right length]; lia|]. cbn [length] in HL.
+  destruct (IH h Hh ltac:(lia)) as [E B]. cbn [combine map fold_right fst snd length]. rewrite E.
+  unfold in_box in Hy. unfold abs16. rewrite (wrap16_id (Z.abs y)) by (unfold int16; lia).
+  assert (0 <= x * Z.abs y <= 1040400) by nia.
+  split; [unfold wrap32; lia|lia].
+Qed.
+
+Lemma forallM_listM P m : forallM P m -> Forall P (listM m).
+Proof.
+  destruct m as [[[[[[a0 a1] a2] a3] [[[b0 b1] b2] b3]] [[[c0 c1] c2] c3]] [[[d0 d1] d2] d3]].
+  cbn [forallM forallQ listM listQ app].
+  intros ((A0 & A1 & A2 & A3) & (B0 & B1 & B2 & B3) & (C0 & C1 & C2 & C3) & (D0 & D1 & D2 & D3)).
+  repeat constructor; assumption.
+Qed.
+
+Lemma length_listM m : length (listM m) = 16%nat.
+Proof. destruct m as [[[[[[a0 a1] a2] a3] [[[b0 b1] b2] b3]] [[[c0 c1] c2] c3]] [[[d0 d1] d2] d3]]. reflexivity. Qed.
+
+Theorem lane16_tdisto_eq : forall w a b, Forall (fun x => 0 <= x <= 255) w -> Forall byte a -> Forall byte b ->
+  l_tdisto w a b = tdisto w a b.
+Proof.
+  intros w a b Hw Ha Hb. unfold l_tdisto, tdisto.
+  destruct (blk16_cases a) as [[x Ex]|Ex]; rewrite Ex; [|reflexivity].
+  destruct (blk16_cases b) as [[y Ey]|Ey]; rewrite Ey; [|reflexivity]. cbn [bind].
+  destruct (l_hadamard_eq x (blk16_Forall _ _ _ Ex Ha)) as [-> Bx].
+  destruct (l_hadamard_eq y (blk16_Forall _ _ _ Ey Hb)) as [-> By].
+  destruct (l_wsum_eq w (listM (hadamard x)) Hw (forallM_listM _ _ Bx)) as [-> _]; [rewrite length_listM; lia|].
+  destruct (l_wsum_eq w (listM (hadamard y)) Hw (forallM_listM _ _ By)) as [-> _]; [rewrite length_listM; lia|].
+  reflexivity.
+Qed.
+
+(** * AC quantisation: equal whenever the 32-bit product of the Go code does not wrap. *)
+Theorem lane_quant_eq : forall x sharpen iq bias,
+  -32767 <= x <= 32767 -> 0 <= sharpen -> Z.abs x + sharpen <= 32767 ->
+  0 <= iq < 4294967296 -> 0 <= bias ->
+  (Z.abs x + sharpen) * iq + bias < 4294967296 ->
+  quant_lane x sharpen iq bias = quant_go x sharpen iq bias.
+Proof.
+  intros x sharpen iq bias Hx Hs Hv Hiq Hb Hp. unfold quant_lane, quant_go. cbv zeta.
+  assert (Ea : (if x <? 0 then wrap16 (- x) else x) = Z.abs x).
+  { destruct (Z.ltb_spec x 0) as [E|E]; [rewrite wrap16_id by (unfold int16; lia)|]; lia. }
+  rewrite Ea. unfold add16. rewrite (wrap16_id (Z.abs x + sharpen)) by (unfold int16; lia).
+  set (v := Z.abs x + sharpen) in *.
+  replace (Z.max v 0) with v by lia.
+  replace (if v <? 0 then 0 else v) with v by (destruct (Z.ltb_spec v 0); lia).
+  assert (Hvi : 0 <= v * iq) by (apply Z.mul_nonneg_nonneg; lia).
+  rewrite (Z.mod_small v), (Z.mod_small iq), (Z.mod_small bias) by lia.
+  rewrite (Z.mod_small (v * iq + bias) 4294967296) by lia.
+  rewrite (Z.mod_small (v * iq + bias) 18446744073709551616) by lia.
+  set (p := (v * iq + bias) / 131072).
+  assert (Hpp : 0 <= p < 32768) by (subst p; lia).
+  rewrite (Z.mod_small p) by lia. rewrite (wrap32_id p) by lia.
+  set (c := if 2047 <? p then 2047 else p).
+  assert (Hc : 0 <= c <= 2047) by (subst c; destruct (Z.ltb_spec 2047 p); lia).
+  rewrite (sat16_id c) by (unfold int16; lia).
+  destruct (Z.ltb_spec x 0) as [E|E].
+  - replace (-1 * c) with (- c) by lia. reflexivity.
+  - rewrite wrap16_id by (unfold int16; lia). lia.
+Qed.
+
+Corollary lane_quant_eq_encoder : forall x sharpen iq bias,
+  -4095 <= x <= 4095 -> 0 <= sharpen <= 255 -> 0 <= iq <= 131072 -> 0 <= bias <= 1048576 ->
+  quant_lane x sharpen iq bias = quant_go x sharpen iq bias.
+Proof.
+  intros x sharpen iq bias Hx Hs Hiq Hb. apply lane_quant_eq; try lia.
+  assert (Hv : 0 <= Z.abs x + sharpen <= 4350) by lia.
+  pose proof (Z.mul_le_mono_nonneg _ _ _ _ (proj1 Hv) (proj2 Hv) (proj1 Hiq) (proj2 Hiq)). lia.
+Qed.
+
+Example quant_example : quant_go (-1000) 3 16384 65536 = -125 /\ quant_lane (-1000) 3 16384 65536 = -125.
+Proof. split; vm_compute; reflexivity. Qed.
